@@ -21,8 +21,13 @@ def rmsg(rng):
         return wmsg(rng.choice([6, 8]), struct.pack(">III", rng.randrange(5), rng.choice([0, BLOCK]), rng.choice([1, BLOCK]))), "request"
     if r < 0.66:
         return wmsg(7, struct.pack(">II", rng.randrange(3), 0) + bytes(rng.randrange(256) for _ in range(rng.choice([0, 1, 5])))), "piece"
-    if r < 0.70:
+    if r < 0.68:
         return hs(), "handshake"
+    if r < 0.70:   # a handshake with exactly one byte of its fixed beginning (length byte + protocol name) off
+        h = bytearray(hs())
+        k = rng.randrange(20)
+        h[k] ^= rng.choice([1, 0x20, 0x80, 0xff])
+        return bytes(h), "handshake-deviation"
     if r < 0.82:   # unknown id with a body
         return wmsg(rng.choice([9, 10, 20, 83, 84, 84, 85, 255]), bytes(rng.randrange(256) for _ in range(rng.choice([0, 1, 2, 7])))), "unknown"
     if r < 0.92:   # wrong length prefix on a fixed-size / minimum-size message
@@ -97,7 +102,9 @@ class C06:
         return [self.mk([u[:6], u[6:] + wmsg(0)], False, "corpus"), self.mk([u + wmsg(0)], False, "corpus"),
                 self.mk([struct.pack(">IB", 2, 0) + b"\0"], True, "corpus"), self.mk([wmsg(9, b"\1\2\3")[:5]], True, "corpus"),
                 self.mk([struct.pack(">IB", 65537, 7)], False, "corpus"), self.mk([wmsg(4, b"\0\0\0\1")[:7]], True, "corpus"),
-                self.mk([hs()[:30], hs()[30:]], True, "corpus")]
+                self.mk([hs()[:30], hs()[30:]], True, "corpus")] + [
+                    self.mk([bytes(b ^ (0x20 if i == k else 0) for i, b in enumerate(hs())) + wmsg(0)], False, "corpus-handshake-deviation")
+                    for k in range(20)]
 
     def gen(self, rng, tier):
         cases = []
